@@ -22,6 +22,35 @@ def fmtd(l):
     return (D0 + datetime.timedelta(days=l)).isoformat()
 
 
+def fmtn(nota, l):
+    """day l in notation ymd / ywd / yd / ymcw"""
+    d = D0 + datetime.timedelta(days=l)
+    if nota == "ywd":
+        iy, iw, wd = d.isocalendar()
+        return "%04d-W%02d-%d" % (iy, iw, wd)
+    if nota == "yd":
+        return "%04d-%03d" % (d.year, d.timetuple().tm_yday)
+    if nota == "ymcw":
+        return "%04d-%02d-%02d-%02d" % (d.year, d.month, (d.day - 1) // 7 + 1, d.isoweekday())
+    return d.isoformat()
+
+
+def parsen(nota, line):
+    if nota == "ywd":
+        m = re.match(r"^(\d{4})-W(\d\d)-(\d)$", line)
+        return (datetime.date.fromisocalendar(int(m.group(1)), int(m.group(2)), int(m.group(3)) or 7) - D0).days
+    if nota == "yd":
+        y, j = line.split("-")
+        return (datetime.date(int(y), 1, 1) - D0).days + int(j) - 1
+    if nota == "ymcw":
+        y, m, c, w = map(int, line.split("-"))
+        first = datetime.date(y, m, 1)
+        off = ((w or 7) - first.isoweekday()) % 7
+        return (first - D0).days + off + 7 * (c - 1)
+    y, m, d = map(int, line.split("-"))
+    return ldn(y, m, d)
+
+
 def hms(s):
     return "%02d:%02d:%02d" % (s // 3600, s // 60 % 60, s % 60)
 
@@ -44,6 +73,32 @@ def scenarios(rng, quick):
         cfl = rng.random() < 0.25
         args = [fmtd(f), "%d%s" % (inc, unit), fmtd(l)] + sum((["-s", WDN[w]] for w in skip), []) + (["--compute-from-last"] if cfl else [])
         sc.append(dict(kind="lin", args=args, first=f, inc=step, last=l, skip=skip, cfl=cfl, wd0=5, dec="date"))
+    # other calendars, and runs across new year in both directions for every year type (the ISO week calendar carries hidden state
+    # across year ends; output is printed in the calendar of the bounds, or as %F)
+    seen = set()
+    for y in range(1995, 2030):
+        k = (datetime.date(y, 1, 1).isoweekday(), y % 4 == 0)
+        if k in seen:
+            continue
+        seen.add(k)
+        ny = ldn(y, 1, 1)
+        for nota in (("ywd", "yd", "ymcw", "ymd") if not quick else ("ywd", "yd")):
+            for inc, unit, a, bnd in ((-1, "w", 11, -24), (1, "w", -24, 11), (-3, "d", 5, -7), (3, "d", -7, 5), (-1, "w", 370, -10)):
+                step = inc * (7 if unit == "w" else 1)
+                f = ny + a
+                l = f + (abs(bnd - a) // abs(step)) * step
+                for cfl in (False, True):
+                    for fmt in ((None, "%F") if nota == "ywd" else (None,)):
+                        args = [fmtn(nota, f), "%d%s" % (inc, unit), fmtn(nota, l)] + (["--compute-from-last"] if cfl else []) + (["-f", fmt] if fmt else [])
+                        sc.append(dict(kind="lin", args=args, first=f, inc=step, last=l, skip=[], cfl=cfl, wd0=5, dec="date", nota="ymd" if fmt else nota))
+    for i in range(n // 5):
+        nota = rng.choice(["ywd", "yd", "ymcw"])
+        f = rng.randrange(chainmod.LDN_1601 + 500, hi)
+        inc = rng.choice([1, 2, 7, 30, -1, -7, -13])
+        unit = rng.choice(["d", "w"])
+        step = inc * (7 if unit == "w" else 1)
+        l = f + rng.randrange(0, 30) * step
+        sc.append(dict(kind="lin", args=[fmtn(nota, f), "%d%s" % (inc, unit), fmtn(nota, l)], first=f, inc=step, last=l, skip=[], cfl=False, wd0=5, dec="date", nota=nota))
     # no increment given: defaults to 1d; first > last gives nothing
     for i in range(n // 10):
         f = rng.randrange(chainmod.LDN_1601 + 500, hi)
@@ -141,8 +196,7 @@ def scenarios(rng, quick):
 def decode(sc, line):
     try:
         if sc["dec"] == "date":
-            y, m, d = map(int, line.split("-"))
-            return ldn(y, m, d)
+            return parsen(sc.get("nota", "ymd"), line)
         if sc["dec"] == "time":
             h, m, s = map(int, line.split(":"))
             return h * 3600 + m * 60 + s
